@@ -8,6 +8,7 @@ CONSTANTS
   GenKinds = {"use", "forward", "import", "loadcss"}
   GenSpellings = {"plain", "dot", "dd"}
   DevChoices <- DevIdeal
+  MaxFaultAt = 0
 INVARIANTS LockDiscipline DepthBound LoopOnlyOnCycle NeverOverflow InitOnce OkOnlyAcyclic Emit
 PROPERTY Termination
 CHECK_DEADLOCK FALSE
